@@ -48,7 +48,16 @@ func (l *simLogger) Printf(format string, v ...interface{}) {
 	msg = runDirRE.ReplaceAllString(msg, "") // the run's scratch directory has a random name
 	l.c.Logf("LOG %s %s", l.id, msg)
 }
-func (l *simLogger) Debugf(format string, v ...interface{}) {}
+func (l *simLogger) Debugf(format string, v ...interface{}) {
+	if strings.HasPrefix(format, "broadcasting create shard took") {
+		// view.CreateFragmentIfNotExists stopped waiting for its CreateShardMessage after 50 ms
+		slowShardAnnounce = true
+	}
+}
+
+// slowShardAnnounce: in this run a write that created a shard was acknowledged before every
+// node had been told about the shard (reset by the harnesses that read it).
+var slowShardAnnounce bool
 
 type fakeListener struct{ addr string }
 
